@@ -7,7 +7,7 @@ type QueryTypes []dnsmessage.Type
 // Define different query types which can be used
 var (
 	QueryTypeNull    = dnsmessage.Type(10)
-	QueryTypePrivate = dnsmessage.Type(65000)
+	QueryTypePrivate = dnsmessage.Type(TypeSocketAce) // must be the type registered with dns.PrivateHandle
 	QueryTypeTxt     = dnsmessage.TypeTXT
 	QueryTypeSrv     = dnsmessage.TypeSRV
 	QueryTypeMx      = dnsmessage.TypeMX
